@@ -95,6 +95,7 @@ class Ctx:
         self.sto_bases = {}               # generation -> Array
         self.fresh_n = 0
         self.limited = set()
+        self.shift_amounts = []           # symbolic shift amounts seen (candidates for a case split)
 
     def inp(self, i):
         while len(self.inputs) <= i:
@@ -254,12 +255,16 @@ class Ops:
             return b2w(a > b)
         if name == "EQ":
             return b2w(a == b)
+        if name in ("SHL", "SHR", "SAR") and not is_num(a):
+            if not any(a.eq(t) for t in ctx.shift_amounts):
+                ctx.shift_amounts.append(a)
+        # the explicit >= 256 guard is redundant for bvshl/bvlshr/bvashr but lets the solver see the case at once
         if name == "SHL":
-            return b << a
+            return b << a if is_num(a) else z3.If(z3.ULT(a, BV(256)), b << a, BV(0))
         if name == "SHR":
-            return z3.LShR(b, a)
+            return z3.LShR(b, a) if is_num(a) else z3.If(z3.ULT(a, BV(256)), z3.LShR(b, a), BV(0))
         if name == "SAR":
-            return b >> a
+            return b >> a if is_num(a) else z3.If(z3.ULT(a, BV(256)), b >> a, z3.If(b < BV(0), BV(MASK), BV(0)))
         if name == "BYTE":
             return z3.If(z3.ULT(a, BV(32)), z3.LShR(b, (BV(31) - a) * BV(8)) & BV(0xff), BV(0))
         if name == "EXP":
